@@ -172,35 +172,50 @@ theorem neutralizeBin_val (ρ : Env) {op : BinOp} {l r : Arg} {c : Bool} {a' : A
     | panic => simp [hn] at he
   · exact neutralTail_val ρ he h
 
-theorem neutralizeRaw_val (ρ : Env) {a : Arg} {c : Bool} {a' : Arg} {v : Int}
-    (he : neutralizeRaw a = .ok (c, a')) (h : valZ ρ a = some v) : valZ ρ a' = some v := by
-  cases a with
-  | bin op l r =>
-    rcases neutralizeRaw_bin_cases op l r with h0 | ⟨x, y, rfl, rfl, rfl, h0⟩
-    · rw [h0] at he; exact neutralizeBin_val ρ he h
-    · rw [h0] at he
-      obtain ⟨_, c', he'⟩ := swapped_ok he
-      refine neutralizeBin_val ρ he' ?_
-      obtain ⟨p, q, hp, hq, ho⟩ := valZ_bin h
-      obtain ⟨a, b, ha, hb, ho2⟩ := valZ_bin hq
-      simp only [valZ, Option.some.injEq] at hp
-      simp only [opZ, Option.some.injEq] at ho ho2
-      rw [valZ_bin_mk hb ha]; simp only [opZ, Option.some.injEq]; omega
-  | neg w =>
-    rcases neutralizeRaw_neg_cases w with h0 | ⟨x, y, rfl, h0⟩
-    · rw [h0] at he
-      simp only [Res.ok.injEq, Prod.mk.injEq] at he
+theorem neutralizeRaw_val_all (ρ : Env) : ∀ (a : Arg) (c : Bool) (a' : Arg) (v : Int),
+    neutralizeRaw a = .ok (c, a') → valZ ρ a = some v → valZ ρ a' = some v := by
+  apply Arg.negNegInd
+  · intro a hnn c a' v he h
+    cases a with
+    | bin op l r =>
+      rcases neutralizeRaw_bin_cases op l r with h0 | ⟨x, y, rfl, rfl, rfl, h0⟩
+      · rw [h0] at he; exact neutralizeBin_val ρ he h
+      · rw [h0] at he
+        obtain ⟨_, c', he'⟩ := swapped_ok he
+        refine neutralizeBin_val ρ he' ?_
+        obtain ⟨p, q, hp, hq, ho⟩ := valZ_bin h
+        obtain ⟨a, b, ha, hb, ho2⟩ := valZ_bin hq
+        simp only [valZ, Option.some.injEq] at hp
+        simp only [opZ, Option.some.injEq] at ho ho2
+        rw [valZ_bin_mk hb ha]; simp only [opZ, Option.some.injEq]; omega
+    | neg w =>
+      rcases neutralizeRaw_neg_cases w with h0 | ⟨x, y, rfl, h0⟩ | ⟨u, rfl, _⟩
+      · rw [h0] at he
+        simp only [Res.ok.injEq, Prod.mk.injEq] at he
+        obtain ⟨_, rfl⟩ := he; exact h
+      · rw [h0] at he
+        obtain ⟨_, c', he'⟩ := swapped_ok he
+        refine neutralizeBin_val ρ he' ?_
+        obtain ⟨q, hq, rfl⟩ := valZ_neg h
+        obtain ⟨a, b, ha, hb, ho2⟩ := valZ_bin hq
+        simp only [opZ, Option.some.injEq] at ho2
+        rw [valZ_bin_mk hb ha]; simp only [opZ, Option.some.injEq]; omega
+      · exact absurd rfl (hnn u)
+    | _ =>
+      simp only [neutralizeRaw, Res.ok.injEq, Prod.mk.injEq] at he
       obtain ⟨_, rfl⟩ := he; exact h
-    · rw [h0] at he
-      obtain ⟨_, c', he'⟩ := swapped_ok he
-      refine neutralizeBin_val ρ he' ?_
-      obtain ⟨q, hq, rfl⟩ := valZ_neg h
-      obtain ⟨a, b, ha, hb, ho2⟩ := valZ_bin hq
-      simp only [opZ, Option.some.injEq] at ho2
-      rw [valZ_bin_mk hb ha]; simp only [opZ, Option.some.injEq]; omega
-  | _ =>
-    simp only [neutralizeRaw, Res.ok.injEq, Prod.mk.injEq] at he
-    obtain ⟨_, rfl⟩ := he; exact h
+  · intro w ih c a' v he h
+    rw [neutralizeRaw_neg_neg] at he
+    obtain ⟨_, c', he'⟩ := swapped_ok he
+    obtain ⟨q, hq, rfl⟩ := valZ_neg h
+    obtain ⟨q2, hq2, rfl⟩ := valZ_neg hq
+    have : - -q2 = q2 := by omega
+    rw [this]
+    exact ih c' a' q2 he' hq2
+
+theorem neutralizeRaw_val (ρ : Env) {a : Arg} {c : Bool} {a' : Arg} {v : Int}
+    (he : neutralizeRaw a = .ok (c, a')) (h : valZ ρ a = some v) : valZ ρ a' = some v :=
+  neutralizeRaw_val_all ρ a c a' v he h
 
 /-- `neutralize` preserves the ideal value of every expression that has one -/
 theorem neutralize_val (ρ : Env) (a : Arg) : ∀ (c : Bool) (a' : Arg) (v : Int),
